@@ -660,13 +660,12 @@ def _canon_hash(t):
             continue
         kind = zc.Z3_get_ast_kind(ctx, x)
         if kind != z3.Z3_APP_AST:
-            memo[xid] = hash((kind, zc.Z3_ast_to_string(ctx, x)))
+            memo[xid] = hash((kind, zc.Z3_get_ast_hash(ctx, x)))  # numerals, lambdas/quantifiers: z3's own structural hash
             continue
         n = zc.Z3_get_app_num_args(ctx, x)
         if n == 0:
-            memo[xid] = hash(zc.Z3_ast_to_string(ctx, x))
+            memo[xid] = hash((0, zc.Z3_get_ast_hash(ctx, x)))  # constants: hash of the declaration
             continue
-        args = [zc.Z3_get_app_arg(ctx, x, i) for i in range(n)]
         if not done:
             if xid in expanded:
                 continue
@@ -674,6 +673,8 @@ def _canon_hash(t):
             budget -= n
             if budget < 0:
                 return None
+        args = [zc.Z3_get_app_arg(ctx, x, i) for i in range(n)]
+        if not done:
             stack.append((x, True))
             for c in args:
                 if zc.Z3_get_ast_id(ctx, c) not in memo:
